@@ -249,6 +249,88 @@ UTIL_EDITS = [
     ('u-is-none', 'reject', 'prefer_self tests `is not None` (the signature file types x by its truth value only)',
      [('    return x if x else y', '    return x if x is not None else y')]),
 ]
+# the string-mode target (tools/py2v/strmode.py): the JSON slicer of parse.py; outcomes of ./check C14 per edit: docs/C14.md
+SLICER_EDITS = [
+    ('sl-plus2', 'semantic', 'start index: + 3 -> + 2',
+     [('base_idx + len(key) + 3', 'base_idx + len(key) + 2')]),
+    ('sl-str-no-escape', 'semantic', 'string value: the character after a backslash is not skipped',
+     [('            if biom_str[cur_idx] == "\\\\":\n'
+       '                cur_idx += 1\n'
+       '            cur_idx += 1\n'
+       '        cur_idx += 1\n',
+       '            cur_idx += 1\n        cur_idx += 1\n')]),
+    ('sl-obj-close-in-string', 'semantic', 'object scan: ] or } inside a string closes (the old F34)',
+     [('                elif cur_char == QUOTE:\n                    stack.pop()\n',
+       '                elif cur_char == QUOTE:\n'
+       '                    stack.pop()\n'
+       '                elif cur_char in JSON_CLOSE:\n'
+       '                    stack.pop()\n')]),
+    ('sl-num-lose-brace', 'semantic', 'number scan: `{` no longer ends a number',
+     [('not in [",", "{", "}"]', 'not in [",", "}"]')]),
+    ('sl-return-from-start', 'semantic', 'returns biom_str[start_idx:cur_idx] (the key is lost)',
+     [('return biom_str[base_idx:cur_idx]', 'return biom_str[start_idx:cur_idx]')]),
+    ('sl-obs-remap-col', 'semantic', '_remap_axis_sparse_obs remaps the column',
+     [('return f"{lookup[row]},{col},{value}"', 'return f"{row},{lookup[col]},{value}"')]),
+    ('sl-obj-quote-no-push', 'semantic', 'object scan: a quote outside a string is not pushed (brackets in strings count)',
+     [('            elif cur_char == QUOTE:\n                stack.append(cur_char)\n',
+       '            elif cur_char == QUOTE:\n                pass\n')]),
+    ('sl-samp-filter-row', 'semantic', '_direct_slice_data_sparse_samp keeps a record by its ROW index',
+     [('        if c in remap_lookup:\n', '        if r in remap_lookup:\n')]),
+    ('sl-strip-no-tab', 'semantic', 'strip_f no longer strips tabs',
+     [('x.strip("[] \\n\\t")', 'x.strip("[] \\n")')]),
+    ('sl-empty-not-skipped', 'semantic', '_direct_slice_data_sparse_obs: the empty record of "data": [] is not skipped',
+     [("    for rcv in data.split('],'):\n"
+       '        if not strip_f(rcv):\n'
+       '            # a table without nonzero entries, "data": []\n'
+       '            continue\n'
+       "        r, c, v = strip_f(rcv).split(',')",
+       "    for rcv in data.split('],'):\n        r, c, v = strip_f(rcv).split(',')")]),
+    ('sl-join-space', 'semantic', '_direct_slice_data_sparse_obs joins records with `], [`',
+     [('        if r in remap_lookup:\n'
+       '            new_data.append(_remap_axis_sparse_obs(rcv, remap_lookup))\n'
+       '    if not new_data:\n'
+       "        return '[]'\n"
+       "    return '[[%s]]' % '],['.join(new_data)",
+       '        if r in remap_lookup:\n'
+       '            new_data.append(_remap_axis_sparse_obs(rcv, remap_lookup))\n'
+       '    if not new_data:\n'
+       "        return '[]'\n"
+       "    return '[[%s]]' % '], ['.join(new_data)")]),
+    ('sl-rename-local', 'preserving', 'direct_parse_key: local cur_char renamed',
+     [('cur_char', 'ch')]),
+    ('sl-plus-assign', 'preserving', 'whitespace loop: cur_idx = cur_idx + 1',
+     [('    while biom_str[cur_idx].isspace():\n        cur_idx += 1',
+       '    while biom_str[cur_idx].isspace():\n        cur_idx = cur_idx + 1')]),
+    ('sl-not-in', 'preserving', '`x not in JSON_OPEN` written `not (x in JSON_OPEN)`',
+     [('elif biom_str[cur_idx] not in JSON_OPEN:', 'elif not (biom_str[cur_idx] in JSON_OPEN):')]),
+    ('sl-swap-branches', 'preserving', 'object scan: the JSON_CLOSE and JSON_OPEN branches swapped (disjoint tests)',
+     [('            elif cur_char in JSON_CLOSE:\n'
+       '                try:\n'
+       '                    stack.pop()\n'
+       '                except IndexError:  # got an int or float?\n'
+       '                    cur_idx -= 1\n'
+       '                    break\n'
+       '            elif cur_char in JSON_OPEN:\n'
+       '                stack.append(cur_char)\n',
+       '            elif cur_char in JSON_OPEN:\n'
+       '                stack.append(cur_char)\n'
+       '            elif cur_char in JSON_CLOSE:\n'
+       '                try:\n'
+       '                    stack.pop()\n'
+       '                except IndexError:  # got an int or float?\n'
+       '                    cur_idx -= 1\n'
+       '                    break\n')]),
+    ('sl-return-in-loop', 'reject', 'object scan: return instead of break',
+     [('                    cur_idx -= 1\n                    break',
+       '                    cur_idx -= 1\n                    return ""')]),
+    ('sl-str-index', 'reject', 'biom_str.index instead of .find',
+     [('biom_str.find(\'"%s":\' % key)', 'biom_str.index(\'"%s":\' % key)')]),
+    ('sl-except-tuple', 'reject', 'except (IndexError, KeyError)',
+     [('except IndexError:  # got an int or float?', 'except (IndexError, KeyError):')]),
+    ('sl-listcomp', 'reject', '_remap_axis_sparse_obs unpacks a list comprehension',
+     [('    """Remap a sparse observation axis"""\n    row, col, value = list(map(strip_f, rcv.split(\',\')))',
+       '    """Remap a sparse observation axis"""\n    row, col, value = [strip_f(x) for x in rcv.split(\',\')]')]),
+]
 
 # target, source (under biom/), generated file, files compiled in the scratch tree, edits, property of --check
 TARGETS = [
@@ -258,8 +340,9 @@ TARGETS = [
     ('subsample', '_subsample.pyx', 'SubsampleGen.v', ['Gen/SubsampleGen.v', 'Proofs/GenBridgeSubsampleProofs.v'], SUBSAMPLE_EDITS, 'C12'),
     ('helpers', 'table.py', 'HelpersGen.v', ['Gen/HelpersGen.v', 'Proofs/GenBridgeMergeProofs.v', 'Proofs/GenBridgeAxisProofs.v', 'Proofs/GenBridgeIndexedProofs.v', 'Proofs/GenBridgeCastProofs.v'], HELPERS_EDITS, 'C09'),
     ('util', 'util.py', 'UtilGen.v', ['Gen/UtilGen.v', 'Proofs/GenBridgeMergeProofs.v', 'Proofs/GenBridgeIndexProofs.v'], UTIL_EDITS, 'C09'),
+    ('slicer', 'parse.py', 'SlicerGen.v', ['Gen/SlicerGen.v', 'Proofs/GenBridgeSlicerProofs.v'], SLICER_EDITS, 'C14'),
 ]
-GLOBAL_RENAMES = ('rename-local', 'k-rename', 't-rename', 'h-rename')
+GLOBAL_RENAMES = ('rename-local', 'k-rename', 't-rename', 'h-rename', 'sl-rename-local')
 # the property whose check an edit is run through with --check, where it is not the target's default
 EDIT_PROP = {'h-cast-or': 'C08', 'h-cast-none-raises': 'C08', 'h-ctor-no-len': 'C08', 'h-cast-swap': 'C08', 'h-index-wrong-ids': 'C05', 'h-axis-num': 'C19', 'h-sum-axis': 'C19', 'u-index-plus1': 'C05', 'u-rename': 'C05'}
 
